@@ -33,7 +33,8 @@ fn main() {
                     Err(_) => continue,
                 }
             };
-            let h2 = gen_history(&mut r, 2 + r.below(2) as usize, true, nodes0, 5000);
+            let n2 = 2 + r.below(2) as usize;
+            let h2 = gen_history(&mut r, n2, true, nodes0, 5000);
             let mut cx = Ctx { rep: &mut rep, cw: &mut cw, st: &mut st, prop: "C01" };
             cx.st.bump("round2");
             explore_crashes(&mut cx, &mut r, idx, Some((&ndb, &wal)), &h2, 0, if thorough { 400 } else { 80 }, 0);
